@@ -1,6 +1,6 @@
 """C10 — stale or undecodable stored traces are skipped, never fatal.
 Engine E1+E4 (differential): stores populated directly with rows = every subset of valid rows x every subset (size <= 2,
-thorough <= 3) of 30 stale-row kinds x insertion orders, commands stub / stub -v / stub <qualname specifier> / apply;
+thorough <= 3) of 32 stale-row kinds x insertion orders, commands stub / stub -v / stub <qualname specifier> / apply;
 oracle: output equals the output obtained from the decodable rows alone, exit status 0, skipped rows counted exactly."""
 from __future__ import annotations
 
@@ -20,7 +20,7 @@ from mcheck.core.runner import VERIF, Ctx, Result, Violation
 
 ID = "C10"
 RULE = (
-    "rows = every subset of 4 valid rows x every subset of size 0..2 (thorough 0..3) of 30 stale kinds (module removed, "
+    "rows = every subset of 4 valid rows x every subset of size 0..2 (thorough 0..3) of 32 stale kinds (module removed, "
     "submodule removed, parent not a package, function removed / now int / class / settable property / property without "
     "getter / local scope, argument / return / yield class removed, class name bound to int / dict / None / instance, "
     "nested in generics and TypedDict fields, unknown parameter names) x 3 insertion orders x commands {stub, stub -v, "
@@ -77,6 +77,8 @@ STALE: Dict[str, Tuple[Tuple, bool, Optional[Tuple]]] = {
     "arg-class-module-removed": (row(M, "good1", {"a": T("stale_fx.gone", "C")}, INT), False, None),
     "return-class-removed": (row(M, "good1", {"a": STR}, T(M, "GoneRet")), False, None),
     "yield-class-removed": (row(M, "gen1", {"a": STR}, None, T(M, "GoneYield")), False, None),
+    "yield-class-removed-function-now-plain": (row(M, "good1", {"a": INT}, INT, T(M, "GoneYield")), False, None),
+    "return-class-removed-on-generator": (row(M, "gen1", {"a": INT}, T(M, "GoneRet"), T(M, "Ret")), False, None),
     "class-name-now-int": (row(M, "good2", {"a": T(M, "now_int"), "b": STR}, STR), False, None),
     "class-name-now-dict": (row(M, "good2", {"a": T(M, "not_a_type"), "b": STR}, STR), False, None),
     "class-name-now-none": (row(M, "good2", {"a": STR, "b": STR}, T(M, "none_val")), False, None),
